@@ -5,10 +5,10 @@
    Tables regenerated from the source on every run: Gen.BackendTables (translate_cirq.py,
    translate_sympy.py, target_cirq.py, target_sympy.py), Gen.GateTables (gate.py).
 
-   Two clauses of the property are REFUTED for the sympy backend by the regenerated tables as the source
-   stands (advertised statevector order; multi-controlled gates).  Their theorems are stated as
-   `..._status`: a disjunction "refuted with this witness" \/ "holds", so that the file checks before and
-   after a repair of /repo; harness/props/C01.py reads from the regenerated tables which side holds,
+   Two clauses of the property were REFUTED for the sympy backend by the regenerated tables (advertised
+   statevector order; multi-controlled gates) until /repo was repaired (fix: commits f745714, afe2f2a).
+   Their theorems are stated as `..._status`: a disjunction "refuted with this witness" \/ "holds", so that
+   the file checks on either kind of source; harness/props/C01.py reads from the regenerated tables which side holds,
    replays the witness on the real code and reports it. *)
 From Coq Require Import String ZArith NArith List Bool Reals.
 From Tangelo Require Import Num.KStruct.
@@ -105,11 +105,12 @@ Print Assumptions C01_cirq_pow_gate_match.
 Theorem C01_gate_maps_match :
   gate_map_ok base_of_name cirq_dispatch cirq_gate_map = true
   /\ gate_map_ok whole_of_name sympy_dispatch sympy_gate_map = true
+  /\ gate_map_ok whole_of_name sympy_dispatch sympy_multi_gate_map = true
   /\ (forall nm, In nm ["RX"; "RY"; "RZ"; "CRX"; "CRY"; "CRZ"] -> In nm cirq_plain_param)
   /\ targets_ok gtables cirq_dispatch = true /\ targets_ok gtables sympy_dispatch = true
   /\ params_ok gtables cirq_dispatch = true /\ params_ok gtables sympy_dispatch = true.
 Proof.
-  split; [vm_compute; reflexivity|]. split; [vm_compute; reflexivity|].
+  split; [vm_compute; reflexivity|]. split; [vm_compute; reflexivity|]. split; [vm_compute; reflexivity|].
   split; [intros nm H; simpl in H; simpl; repeat (destruct H as [H|H]; [subst; tauto|]); contradiction|].
   repeat split; vm_compute; reflexivity.
 Qed.
@@ -132,8 +133,17 @@ Theorem C01_translate_uses_all_controls_cirq :
 Proof. intros name cs used. apply controls_all. vm_compute. reflexivity. Qed.
 Print Assumptions C01_translate_uses_all_controls_cirq.
 
-(* 9. sympy: REFUTED as the source stands — every controlled branch reads gate.control[0] only.
-      Witness: CX with controls [1; 2] is translated with the single control 1. *)
+(* 8b. cirq: every name of a branch that reads controls is refused (ValueError) when the gate was built
+       without controls, so the translator never reaches those branches with the loop variables of an
+       earlier gate (regenerated: the `elif gate.name in {...}: raise ValueError` after the control test) *)
+Theorem C01_cirq_rejects_missing_controls :
+  no_control_rejected_ok cirq_dispatch cirq_no_control_rejected = true.
+Proof. vm_compute. reflexivity. Qed.
+Print Assumptions C01_cirq_rejects_missing_controls.
+
+(* 9. sympy: was REFUTED before the fix: commit (every controlled branch read gate.control[0] only) —
+      the disjunction is kept so that the file says which side holds for the source as it stands — every controlled branch reads gate.control[0] only.
+      refuted-side witness: CX with controls [1; 2] translated with the single control 1. *)
 Theorem C01_translate_uses_all_controls_sympy_status :
   (all_controls_ok sympy_dispatch = false
    /\ exists name cs used, cs <> [] /\ starts_with_C name = true
@@ -242,8 +252,8 @@ Qed.
 Print Assumptions C01_advertised_order_cirq.
 
 (* 14. sympy: its vector is little-endian in the qubit index (hand model of qubit_to_matrix, tied by the
-       correspondence run).  REFUTED as the source stands: it advertises lsq_first.  Witness: X on qubit
-       0 of 2 (the state |x = 1>): read in the advertised order, the amplitude of x = 1 is 0. *)
+       correspondence run).  Was REFUTED while the source advertised lsq_first (witness: X on qubit 0 of 2,
+       the state |x = 1>: read in the advertised order, the amplitude of x = 1 is 0); holds for msq_first. *)
 Theorem C01_advertised_order_sympy_status :
   (sympy_advertised_order = "lsq_first"
    /\ exists (n : nat) (psi : state CycS) (x : N), (x < 2 ^ N.of_nat n)%N
